@@ -26,6 +26,7 @@ import (
 
 	"github.com/bytedance/sonic/internal/native/types"
 	"github.com/bytedance/sonic/internal/rt"
+	"github.com/bytedance/sonic/internal/vhook"
 )
 
 const (
@@ -2050,6 +2051,9 @@ func (self *Node) parseRaw(full bool) {
 
 func (self *Node) assign(n Node) {
 	self.l = n.l
+	vhook.Emit("ast.assign.l", uintptr(unsafe.Pointer(self)))
 	self.p = n.p
+	vhook.Emit("ast.assign.p", uintptr(unsafe.Pointer(self)))
 	atomic.StoreInt64(&self.t, n.t)
+	vhook.Emit("ast.assign.t", uintptr(unsafe.Pointer(self)))
 }
